@@ -87,6 +87,7 @@ type nondet struct {
 
 // pathState is everything that belongs to one explored path.
 type pathState struct {
+	pools map[*value][]value // sync.Pool contents (pools of the code under test only)
 	eng    *Engine
 	wk     *worker
 	ctx    *smt.Ctx
